@@ -460,6 +460,18 @@ def rule_r5_purity(ck, prog, rule='C16.R5', classes=PROPAGATOR_CLASSES):
                            'Inject does not take the span from the context it was given on every path: another context\'s span is written to the carrier')
             elif f.name == 'Extract':
                 bad = None
+                # a local copy of the context parameter (`Context ctx = context;`) is the parameter under another name
+                tracked = {cp['id']}
+                for dn in f.nodes:
+                    if dn['k'] == 'declstmt':
+                        for d in dn['decls']:
+                            if d.get('init') is not None and 'Context' in (d.get('t') or '') and strip_casts(f, d['init'])['k'] in ('ref', 'construct'):
+                                src = strip_casts(f, d['init'])
+                                while src['k'] == 'construct' and len(src.get('args', [])) == 1:
+                                    src = strip_casts(f, src['args'][0])
+                                if src['k'] == 'ref' and src.get('id') in tracked:
+                                    tracked.add(d['id'])
+                refs = [n for n in f.nodes if n['k'] == 'ref' and n.get('id') in tracked]
                 for n in refs:
                     x = n['i']
                     while x in pm and f.nodes[pm[x]]['k'] in ('cast', 'paren'):
@@ -469,7 +481,9 @@ def rule_r5_purity(ck, prog, rule='C16.R5', classes=PROPAGATOR_CLASSES):
                         continue
                     if par['k'] == 'return':
                         continue
-                    if par['k'] == 'construct' and par.get('copymove') and pm.get(par['i']) is not None and f.nodes[pm[par['i']]]['k'] == 'return':
+                    if par['k'] == 'construct' and par.get('copymove') and pm.get(par['i']) is not None and f.nodes[pm[par['i']]]['k'] in ('return', 'declstmt'):
+                        continue
+                    if par['k'] == 'declstmt':
                         continue
                     if par['k'] == 'call' and strip_targs(par.get('c', '')).endswith('trace::SetSpan') and par.get('args') and par['args'][0] == x:
                         continue
